@@ -75,6 +75,37 @@ def replay_round_trip(info, ce):
     return dict(status='not-reproduced', detail='inverse helper reconstructs the record and leaves its argument alone on the battery')
 
 
+def replay_round_trip_n(info, ce):
+    """inverse helper on a spectrum requested with an explicit n (even, mostly not a power of two): all n samples of the padded record
+    minus its mean and Nyquist component come back"""
+    import eqsig
+    from eqsig.fns import frequency as fr
+    rng = np.random.RandomState(17)
+    ns = sorted({int(info.get('N', 6)), 6, 10, 12, 14, 18, 28, 36, 100, 600})
+    for N in ns:
+        for short in (1, 3):
+            x = rng.randn(N - short) + 1.5
+            dt = 0.5
+            s = eqsig.Signal(x.copy(), dt)
+            fas = fr.calc_fa_spectrum(s, n=N)[0]
+            if info.get('via') == 'fas2values':
+                rec = np.asarray(fr.fas2values(fas, dt))
+            else:
+                rec = np.asarray(fr.fas2signal(fas, dt).values)
+            pad = np.zeros(N)
+            pad[:len(x)] = x
+            sg = (-1.0) ** np.arange(N)
+            want = pad - np.mean(pad) - np.mean(pad * sg) * sg
+            inp = {'values': x.tolist(), 'dt': dt, 'n': N, 'history': ['F = calc_fa_spectrum(s, n=%d)[0]' % N, '%s(F, dt)' % info.get('via')]}
+            if rec.shape != want.shape:
+                return dict(status='confirmed', observed={'returned_samples': int(rec.shape[0]), 'padded_length': N},
+                            detail='the inverse helper returns %d samples for a spectrum of the record padded to n=%d' % (rec.shape[0], N), input=inp)
+            if np.max(np.abs(rec - want)) > 1e-9 * max(1.0, np.max(np.abs(want))):
+                return dict(status='confirmed', observed={'max_abs_error': float(np.max(np.abs(rec - want)))},
+                            detail='reconstruction is not the padded record minus its mean and Nyquist component (n=%d)' % N, input=inp)
+    return dict(status='not-reproduced', detail='inverse helper returns all n samples of the padded record (minus mean and Nyquist) for n in %s' % ns)
+
+
 def replay_array(info, ce):
     """array-level functions: generate_fa_spectrum(sig, n_pad) / calc_fa_spectrum(sig, n=, p2_plus=) against numpy's DFT of the padded record"""
     import eqsig
@@ -122,6 +153,8 @@ def replay(info, ce):
         return replay_array(info, ce)
     if info.get('op') == 'round_trip':
         return replay_round_trip(info, ce)
+    if info.get('op') == 'round_trip_n':
+        return replay_round_trip_n(info, ce)
     if info.get('op') == 'max_fa_period':
         return replay_max_fa_period(info, ce)
     cls = getattr(eqsig, info.get('cls', 'Signal'))
